@@ -1255,6 +1255,12 @@ def run(rep):
                 cases.append(("amplify-stacklimit", "%s:%d:%s:stack=%dMiB" % (kind, 100000, build, lim >> 20), None,
                               "full" if kind in EXEC else "parse", [], False,
                               {"build": build, "stack": lim, "gen": {"kind": kind, "depth": 100000}}))
+    # every repository program EXECUTED on the sanitised build (the repository's own suite only compares output): a memory error or an
+    # undefined operation on an ordinary program shows here.  Programs that already fail on the unchanged tree (raw pointers / heap
+    # built-ins, which the property excludes, and one recorded defect of async code) are listed per file in known finding
+    # C10-repo-exec-baseline; a file failing with another signature, or a file not listed, is a violation.
+    for f, d, _ in base:
+        cases.append(("repo-exec", os.path.relpath(f, common.REPO), d, "full", [], False))
     # executed edge cases of integer arithmetic, shifts, array extents and indices (sanitised build)
     for k in range(250 if quick else 6000):
         cases.append(("edge-arith", "", edge_case(rng_for(seed, "c10-edge", k)).encode(), "full", [], False))
@@ -1364,6 +1370,9 @@ def run(rep):
     rep.coverage["campaign_wall_s"] = round(time.time() - t_run, 1)
 
     guard_hits = {"parser": 0, "evaluator": 0}
+    exec_baseline, baseline_hits = {}, []
+    for f in findings:
+        exec_baseline.update(f.get("baseline", {}))
     cpu_by = {}
     for c, r in results:
         cpu_by[c[0]] = cpu_by.get(c[0], 0.0) + r["cpu"]
@@ -1380,9 +1389,22 @@ def run(rep):
         s = signature(r, case_bound(c, r["nbytes"]))
         if s and s.startswith("memory|") and c[3] == "full":
             s = None          # an executed program may ask for more memory than the 3 GiB this campaign grants a run
+        if s and c[0] == "repo-exec" and c[1] in exec_baseline:
+            if s.startswith(exec_baseline[c[1]]) or (s in ("timeout", "slow") and exec_baseline[c[1]] == "timeout"):
+                baseline_hits.append(c[1])
+                s = None
         if s:
             failures.append((c[0], c[1], c[2], c[3], c[4], c[5], r, s, extra(c)))
     rep.coverage["stack_guard_diagnostics_seen"] = guard_hits
+    rep.coverage["repo_exec"] = {"programs": hist.get("repo-exec", 0), "listed_in_baseline": len(exec_baseline),
+                                 "baseline_entries_still_failing": len(baseline_hits)}
+    if baseline_hits:
+        for f in findings:
+            if f.get("baseline"):
+                rep.known(f["id"], f["what_fails"])
+    fixed_now = sorted(set(exec_baseline) - set(baseline_hits))
+    if fixed_now and hist.get("repo-exec"):
+        rep.notes.append("C10-repo-exec-baseline: %d listed program(s) no longer fail: %s" % (len(fixed_now), ", ".join(fixed_now[:8])))
     samples.append({"stream": results[0][0][0], "label": results[0][0][1], "source": show(results[0][0][2], 300), "rc": results[0][1]["rc"]})
     for want in ("amplify-deep", "amplify-exec"):
         for c, r in results:
@@ -1675,6 +1697,8 @@ def finding_input(rp):
 
 def replay_finding(f, asan, plain):
     """-> (True still fails / False fixed / None not decidable, text)"""
+    if "baseline" in f:
+        return None, "per-file baseline of the repo-exec stream (decided there)"
     rp = f["replay"]
     impl = asan if rp.get("build", "asan") == "asan" else plain
     if rp.get("kind") == "scaling":
